@@ -31,8 +31,8 @@ PROPS["C03"] = dict(
     coq_shard=20,
     streams=[dict(name="main", quick=320, thorough=8000)],
     rule=_RULE,
-    codes={1: "htlc/state-machine", 2: "htlc/coins-moved-not-as-transitions-dictate", 3: "htlc/claim-iff-preimage",
-           4: "htlc/refund-at-expiry", 5: "htlc/rejection-moved-something", 6: "htlc/duplicate-or-malformed-creation"},
+    codes={1: "htlc.state-machine", 2: "htlc.coins-moved-not-as-transitions-dictate", 3: "htlc.claim-iff-preimage",
+           4: "htlc.refund-at-expiry", 5: "htlc.rejection-moved-something", 6: "htlc.duplicate-or-malformed-creation"},
     explain={1: "a contract made a transition other than open->completed / open->refunded, or its fixed fields changed",
              2: "balances / bank supply changed differently from what the observed state transitions dictate "
                 "(funds left escrow twice, went to the wrong party, or were not minted / burned exactly once)",
@@ -53,8 +53,8 @@ PROPS["C04"] = dict(
     coq_shard=20,
     streams=[dict(name="main", quick=320, thorough=8000)],
     rule=_RULE,
-    codes={1: "htlc/escrow-ne-open-contracts", 2: "htlc/incoming-outgoing-ne-open-transfers",
-           3: "htlc/current-ne-minted-minus-burned", 4: "htlc/limit-exceeded"},
+    codes={1: "htlc.escrow-ne-open-contracts", 2: "htlc.incoming-outgoing-ne-open-transfers",
+           3: "htlc.current-ne-minted-minus-burned", 4: "htlc.limit-exceeded"},
     explain={1: "the escrow balance differs from the sum over open ordinary contracts and open outgoing transfers",
              2: "an asset's incoming / outgoing counter differs from the sum over open transfers of that direction",
              3: "an asset's current supply differs from completed incoming minus completed outgoing, or from the denom's bank supply",
